@@ -84,9 +84,15 @@ fn run_text(t: &str, program: bool, st: &mut Stats) -> Vec<Violation> {
         out.push(Violation::new("syntax invariant", json!({"signature": format!("miri-stage {p}"), "text": t})));
     }
     let a = parse_dump(t, true);
-    let b = parse_dump(t, false);
-    if a.tree != b.tree || a.ok != b.ok {
-        out.push(Violation::new("memo visible", json!({"signature": "miri-stage memo-visible", "text": t})));
+    // the uncached parser is exponential in nesting: under the interpreter only a small budget is affordable
+    match crate::oracle::syntax::parse_dump_limited(t, false, 1500) {
+        Some(b) => {
+            st.inc("uncached_compared");
+            if a.tree != b.tree || a.ok != b.ok {
+                out.push(Violation::new("memo visible", json!({"signature": "miri-stage memo-visible", "text": t})));
+            }
+        }
+        None => st.inc("uncached_infeasible"),
     }
     if program {
         let o = pipeline::run(&Sources::single(t), None);
